@@ -182,12 +182,41 @@ def describe(o):
         return "?%r" % (e,)
 
 
+def hyper_fp(o, depth=0):
+    """fingerprint of the non-parameter attributes (hyperparameters that are not operators), recursively through wrappers"""
+    from pennylane.core.operator import Operator as _Op
+    if depth > 6:
+        return "..."
+    out = [type(o).__name__]
+    hp = getattr(o, "hyperparameters", None) or {}
+    for k in sorted(hp):
+        v = hp[k]
+        if isinstance(v, _Op):
+            out.append((k, hyper_fp(v, depth + 1)))
+        elif isinstance(v, (list, tuple)) and any(isinstance(x, _Op) for x in v):
+            out.append((k, [hyper_fp(x, depth + 1) if isinstance(x, _Op) else repr(x) for x in v]))
+        else:
+            try:
+                out.append((k, repr(np.asarray(v).tolist()) if isinstance(v, np.ndarray) else repr(v)))
+            except Exception:
+                out.append((k, "?"))
+    obs = getattr(o, "obs", None)
+    if obs is not None:
+        out.append(("obs", hyper_fp(obs, depth + 1)))
+    return repr(out)
+
+
 def route(op, f, ast0):
     try:
         r = f(op)
     except Exception as e:
         return {"error": "%s: %s" % (type(e).__name__, str(e)[:200])}
     out = {"type_same": type(r) is type(op), "is_same_object": r is op}
+    try:
+        out["hyper_same"] = hyper_fp(r) == hyper_fp(op)
+    except Exception as e:
+        out["hyper_same"] = True
+        out["hyper_error"] = repr(e)[:100]
     try:
         out["equal"] = bool(qp.equal(op, r)) and bool(qp.equal(r, op))
     except Exception as e:
@@ -253,7 +282,7 @@ def main():
                     exact = len(res.data) == len(new) and all(same_datum(x, y) for x, y in zip(res.data, new))
                     r["bind"].append({"new": [leaf_fracs(d) for d, (_, reb) in zip(new, slots) if reb], "ast": a,
                                       "ast_error": why2, "params_exact": bool(exact), "type_same": type(res) is type(op),
-                                      "wires_same": res.wires == op.wires,
+                                      "wires_same": res.wires == op.wires, "hyper_same": hyper_fp(res) == hyper_fp(op),
                                       "orig_untouched": try_extract(op)[0] == ast0})
                 except Exception as e:
                     r["bind"].append({"error": "%s: %s" % (type(e).__name__, str(e)[:200])})
